@@ -437,7 +437,13 @@ def job_symbolic(job):
                                 gotd[k] = v
                         gotd = O.nz(gotd)
                         # rational constants of a symbolic multivector are printed as Python divisions (-2/3 -> float): compare to rounding
-                        bad = set(gotd) != set(expd) or any(abs(float(gotd[k]) - float(expd[k])) > 1e-9 * max(1.0, abs(float(expd[k]))) for k in expd)
+                        # (a blade present on one side only with a coefficient at rounding level - e.g. -1.8e-15 where exact arithmetic gives 0 - is
+                        # the same rounding, not a different element: compare over the union of the blades, absolute scale = largest coefficient)
+                        try:
+                            scale_ = max([1.0] + [abs(float(v)) for v in expd.values()])
+                            bad = any(abs(float(gotd.get(k, 0)) - float(expd.get(k, 0))) > 1e-9 * scale_ for k in set(gotd) | set(expd))
+                        except Exception:
+                            bad = True
                     if bad and len(out['failures']) < 400:
                         out['failures'].append({'config': cfg, 'op': name, 'what': f'symbolic then {wn} != numeric', 'a': showmv(ak, av), 'b': showmv(bk, bv),
                                                 'values': {str(k): str(v) for k, v in env.items()}, 'got': str(gotd)[:250], 'expected': str(expd)[:250]})
